@@ -192,6 +192,7 @@ def classify_flow(case, facts, graphs, rules, flow, ops):
                     seeds |= g.source_seeds(ssite, how)
             return g.closure(seeds)
         why = None
+        detail = ""
         # (a) the operand of a rule whose unit_name / line_num / lang excludes this statement
         reach = reach_of(graph)
         for r in rules["sink"]:
@@ -218,13 +219,17 @@ def classify_flow(case, facts, graphs, rules, flow, ops):
             sid, tid = site_meta(case)
             s, t = sid.get(ssite), tid.get(tsite)
             where = "undeclared-site" if (s is None or t is None) else ("cross-chain" if s["chain"] != t["chain"] else t["ending"])
-            why = "unexplained:" + where + (":other-operand" if j["other_operand"] else "")
+            # one class: no named weakening of the reference reading explains the report (the construction it
+            # was found in only goes into the message)
+            why = "unexplained"
+            detail = where
             if case.get("keep_from_code") and j["other_operand"]:
                 # only the shipped *_from_code.yaml rules distinguish this run from the others
                 why = "from-code-rules:other-operand"
         out.append(((ID, "dependence", why),
                     "reported flow %s:%d -> %s:%d: the operand designated by the matching sink rules does not depend on the "
-                    "source statement even flow-insensitively (%s)" % (flow[0], flow[1], flow[2], flow[3], why)))
+                    "source statement even flow-insensitively (%s%s)" % (flow[0], flow[1], flow[2], flow[3], why,
+                                                                         (" in " + detail) if detail else "")))
     return out
 
 
@@ -467,7 +472,7 @@ def main(tier, seed, t0):
             avoid = set(json.loads(n.split(":", 1)[1]))
     for k in sorted(avoid):
         col.stepovers["rule-kind " + k + " (cannot report, see C10)"] += 1
-    total = 500 if tier == "quick" else 16000
+    total = 500 if tier == "quick" else 12000
     nsh = common.NCPU if tier == "quick" else common.NCPU * 4
     per = total // nsh + 1
     args = [(common.shard_seed(seed, i), per, sorted(avoid), True) for i in range(nsh)]
